@@ -180,12 +180,19 @@ def run_check(prop, tier, spec, nworkers=None, runs=None, budget_s=None, quiet=F
                 # retry harness errors once in a fresh child; still failing => harness problem
                 for e in rep.get("errors", []):
                     g = w.call({"op": "gen", "prop": prop, "tier": tier, "base": base, "index": e["i"]})
-                    r2 = w.call({"op": "exec", "prop": prop, "scenario": g["scenario"], "tape": None})["result"]
+                    r2 = {"harness_error": e["error"]}
+                    for attempt in range(3):  # transient trouble of the machine (fork / thread limits, watchdog under load)
+                        time.sleep(0.5 * attempt)
+                        r2 = w.call({"op": "exec", "prop": prop, "scenario": g["scenario"], "tape": None})["result"]
+                        if not r2.get("harness_error"):
+                            break
                     with lock:
                         if r2.get("harness_error"):
                             agg["errors"].append({"i": e["i"], "seed": e["seed"], "error": e["error"], "retry": r2["harness_error"]})
                         else:
                             agg["retried_ok"] += 1
+                            if len(agg.setdefault("retried_msgs", [])) < 5:
+                                agg["retried_msgs"].append(str(e["error"])[-300:])
                             agg["evaluations"] += 1
                             for v in r2.get("violations", []):
                                 viol_by_key.setdefault(v["key"], []).append(
@@ -361,6 +368,7 @@ def run_check(prop, tier, spec, nworkers=None, runs=None, budget_s=None, quiet=F
                 "distinct_switch_pairs": len(agg["switch_pairs"]),
                 "determinism_guard": {"reexecuted": agg["rechecks"], "mismatches": len(agg["recheck_mismatch"])},
                 "harness_retries_ok": agg["retried_ok"],
+                "harness_retry_reasons": agg.get("retried_msgs", []),
                 "known_findings_seen": known_lines,
                 "violation_classes": [k for k, _, _, _ in new_violations],
                 "real_components": spec["real_components"],
